@@ -245,8 +245,8 @@ func ExecOnTop(sc *statecache.StateCache, pndb *util.PNodeDB, prev *Block, rd Ro
 	return &Block{Trie: block, BC: bc, Rd: rd}, nil
 }
 
-// Finalize saves a live block, records its dead nodes and rebases it onto the persistent store.
-func Finalize(pndb *util.PNodeDB, b *Block) (dead []string, err error) {
+// Save persists a live block (SaveChanges without deletes + dead-node record) into pndb without touching the block.
+func Save(pndb *util.PNodeDB, b *Block) (dead []string, err error) {
 	deadNodes := b.Trie.GetDeletes()
 	for _, d := range deadNodes {
 		dead = append(dead, string(d.GetHashBytes()))
@@ -255,7 +255,13 @@ func Finalize(pndb *util.PNodeDB, b *Block) (dead []string, err error) {
 	if err = b.Trie.SaveChanges(context.Background(), pndb, false); err != nil {
 		return
 	}
-	if err = pndb.RecordDeadNodes(deadNodes, b.Rd.Version); err != nil {
+	err = pndb.RecordDeadNodes(deadNodes, b.Rd.Version)
+	return
+}
+
+// Finalize saves a live block, records its dead nodes and rebases it onto the persistent store.
+func Finalize(pndb *util.PNodeDB, b *Block) (dead []string, err error) {
+	if dead, err = Save(pndb, b); err != nil {
 		return
 	}
 	b.Trie.SetNodeDB(pndb)
